@@ -179,6 +179,23 @@ def single_locals(fn: FuncInfo) -> dict:
     return {k: v for k, v in defs.items() if counts.get(k) == 1}
 
 
+def same_def_locals(fn: FuncInfo) -> dict:
+    """name -> expression for locals bound SEVERAL times by plain assignments that all have the same right-hand side (before a
+    loop and again inside it, once per branch ...) and by nothing else: symbolically they have one definition."""
+    plain: dict = {}
+    other: set = set(fn.params)
+    for n in walk_no_nested(fn.node):
+        if isinstance(n, ast.Assign) and len(n.targets) == 1 and isinstance(n.targets[0], ast.Name):
+            plain.setdefault(n.targets[0].id, []).append(n.value)
+        elif isinstance(n, (ast.Assign, ast.AugAssign, ast.AnnAssign, ast.For, ast.comprehension, ast.NamedExpr)):
+            tg = n.targets if isinstance(n, ast.Assign) else [n.target]
+            for t in tg:
+                for x in ast.walk(t):
+                    if isinstance(x, ast.Name) and isinstance(x.ctx, ast.Store):
+                        other.add(x.id)
+    return {k: v[0] for k, v in plain.items() if len(v) > 1 and k not in other and len({ast.dump(x) for x in v}) == 1}
+
+
 def mutated_names(fn: FuncInfo) -> set:
     """Locals whose OBJECT is mutated after binding (subscript/attribute stores, in-place operators, mutator calls):
     substituting their defining expression would lose the mutation."""
@@ -928,3 +945,43 @@ def power_degree(e: ast.AST, deg_of, defs: dict, depth: int = 0):
                 return power_degree(e.args[-1] if name == 'cast' else e.args[0], deg_of, defs, depth + 1)
         return None
     return None
+
+
+def loop_progressions(fn: FuncInfo) -> dict:
+    """{loop variable: (first value expr, constant step)} for variables that run through an arithmetic progression:
+    `for x in range(lo, hi, step)`, `for i, x in enumerate(range(...))` (i: 0, 1), `reversed(range(...))` (step negated), through
+    names bound once to such a range."""
+    defs = single_locals(fn)
+    out = {}
+
+    def prog(e, depth=0):
+        if depth > 4:
+            return None
+        if isinstance(e, ast.Name) and e.id in defs:
+            return prog(defs[e.id], depth + 1)
+        if isinstance(e, ast.Call) and norm(e.func) in ('list', 'tuple') and len(e.args) == 1:
+            return prog(e.args[0], depth + 1)
+        if isinstance(e, ast.Call) and norm(e.func) in ('range', 'np.arange') and not e.keywords and 1 <= len(e.args) <= 3:
+            lo = e.args[0] if len(e.args) >= 2 else ast.Constant(value=0)
+            st = const_value(e.args[2]) if len(e.args) == 3 else 1
+            if isinstance(st, int) and st != 0:
+                return lo, st
+            return None
+        if isinstance(e, ast.Call) and norm(e.func) == 'reversed' and len(e.args) == 1:
+            p = prog(e.args[0], depth + 1)
+            if p is not None:
+                return None, -p[1]              # the first value of the reversed range is not needed by the callers
+        return None
+    for n in walk_no_nested(fn.node):
+        if not isinstance(n, ast.For):
+            continue
+        it, tg = n.iter, n.target
+        if isinstance(it, ast.Call) and norm(it.func) == 'enumerate' and len(it.args) == 1 and isinstance(tg, ast.Tuple) and len(tg.elts) == 2:
+            if isinstance(tg.elts[0], ast.Name):
+                out[tg.elts[0].id] = (ast.Constant(value=0), 1)
+            it, tg = it.args[0], tg.elts[1]
+        if isinstance(tg, ast.Name):
+            p = prog(it)
+            if p is not None:
+                out[tg.id] = p
+    return out
